@@ -219,6 +219,12 @@ def run_failing(env, s):
         t[...] = "abc"
     elif kind == "inplace_setshape":
         t.shape = (t.size + 1,)
+    elif kind == "op_fpe":
+        with np.errstate(all="raise"):
+            mg.divide(t, 0.0)
+    elif kind == "inplace_fpe":
+        with np.errstate(all="raise"):
+            t /= 0.0
     elif kind == "inplace_value_error_in_value":
         t[...] = mg.reshape(t, (t.size + 1,))
     else:
